@@ -1119,7 +1119,11 @@ func (g *Gen) Program(minStmts, maxStmts int) *ast.Root {
 			if g.chance(1, 4, "chainassign") {
 				e = &ast.ExprAssign{Var: g.Variable(5, true), EqualTkn: g.ch('='), Expr: e}
 			}
-			root.Stmts = append(root.Stmts, &ast.StmtExpression{Expr: e, SemiColonTkn: g.ch(';')})
+			st := &ast.StmtExpression{Expr: e, SemiColonTkn: g.semi()}
+			root.Stmts = append(root.Stmts, st)
+			if endsInCloseTag(st.SemiColonTkn) && g.chance(2, 3, "htmlafterclose") {
+				root.Stmts = append(root.Stmts, g.inlineHTML(bytes.HasSuffix(st.SemiColonTkn.Value, []byte("\n"))))
+			}
 		}
 		return root
 	}
@@ -1134,7 +1138,15 @@ func (g *Gen) Program(minStmts, maxStmts int) *ast.Root {
 		g.feat("namespace-semicolon")
 		k := g.rng(1, 2, "nns")
 		for i := 0; i < k; i++ {
-			root.Stmts = append(root.Stmts, &ast.StmtNamespace{NsTkn: g.kw(token.T_NAMESPACE, "namespace"), Name: g.PlainName(), SemiColonTkn: g.ch(';')})
+			// the declaration may end in a close tag like any statement ("namespace App ?>" + template text)
+			ns := &ast.StmtNamespace{NsTkn: g.kw(token.T_NAMESPACE, "namespace"), Name: g.PlainName(), SemiColonTkn: g.semi()}
+			root.Stmts = append(root.Stmts, ns)
+			if endsInCloseTag(ns.SemiColonTkn) {
+				g.feat("namespace-declaration-close-tag")
+				if g.chance(2, 3, "htmlafterclose") {
+					root.Stmts = append(root.Stmts, g.inlineHTML(bytes.HasSuffix(ns.SemiColonTkn.Value, []byte("\n"))))
+				}
+			}
 			if g.flip("uses") {
 				root.Stmts = append(root.Stmts, g.useStmt())
 			}
